@@ -329,6 +329,8 @@ class PyvcExecutor(StmtMixin, Executor):
                 return int(v)
             if isinstance(v, int):
                 return v
+            if isinstance(v, float) or type(v).__name__ == "Fraction":
+                return int(v)
             if isinstance(v, z3.BoolRef):
                 return z3.If(v, 1, 0)
             if isinstance(v, z3.ArithRef):
@@ -395,6 +397,9 @@ class PyvcExecutor(StmtMixin, Executor):
             if items is not None:
                 return list(reversed(items))
             return ReversedV(args[0])
+        if n == "map":
+            cols = [self.iter_concrete(a, st) for a in args[1:]]
+            return [self.call(args[0], list(xs), {}, st, fr, node) for xs in zip(*cols)]      # eager: map over concrete iterables
         if n == "sorted":
             items = self.iter_concrete(args[0], st)
             if all(not is_sym(x) for x in items):
